@@ -1,0 +1,12 @@
+//go:build verif
+
+package ast_api_java
+
+// Contracts checked by /verif (vcgo). Comment-only: no executable code.
+// C09: state invariant of the API scan between two callbacks.
+
+//@ invariant localVars != nil
+
+//@ func NewJavaAPIListener
+//@ establishes
+//@ modifies *
